@@ -87,6 +87,33 @@ fn with_watchdog<F: FnOnce() -> String + Send + 'static>(f: F) -> String {
 
 pub fn pieces(toks: &[&str]) -> String {
     match toks[0] {
+        "dasmsweep" => {
+            // dasmsweep id proc(0..3) mx(0..3) org : every opcode, followed by 0..3 operand bytes (truncated instructions at the end of
+            // the buffer), after a short valid prefix; the disassembler must return, never panic
+            let proc = crate::util::num(toks[2]); let mx = crate::util::num(toks[3]); let org = crate::util::num(toks[4]);
+            let mut bad: Vec<String> = Vec::new();
+            let mut n = 0;
+            for op in 0..256usize {
+                for extra in 0..4usize {
+                    for (pi,prefix) in [vec![],vec![0xeau8],vec![0xc2,0x30],vec![0xa9,0x00,0x60]].iter().enumerate() {
+                        for fill in [0x00u8,0x34,0xff] {
+                            let mut b = prefix.clone(); b.push(op as u8); for _ in 0..extra { b.push(fill); }
+                            n += 1;
+                            let r = catch_unwind(AssertUnwindSafe(|| {
+                                let mut d = a2kit::lang::merlin::disassembly::Disassembler::new();
+                                let p = match proc { 0 => a2kit::lang::merlin::ProcessorType::_6502, 1 => a2kit::lang::merlin::ProcessorType::_65c02, 2 => a2kit::lang::merlin::ProcessorType::_65802, _ => a2kit::lang::merlin::ProcessorType::_65c816 };
+                                d.set_mx(mx&2!=0,mx&1!=0);
+                                let mut img = vec![0;org]; img.extend_from_slice(&b);
+                                let len = img.len();
+                                let _ = d.disassemble(&img,a2kit::lang::merlin::disassembly::DasmRange::Range([org,len]),p,"some");
+                            }));
+                            if r.is_err() && bad.len()<3 { bad.push(format!("op {:02x} +{} operand bytes, prefix {}, fill {:02x}",op,extra,pi,fill)); }
+                        }
+                    }
+                }
+            }
+            if bad.is_empty() { format!("ok inputs={}",n) } else { format!("FAIL panic: disassembler panicked on truncated input: {}",bad.join("; ")) }
+        },
         "wozchunk" => {
             let buf = crate::util::unhex(toks[3]);
             let (next,id,c) = a2kit::img::woz::get_next_chunk(crate::util::num(toks[2]),&buf);
